@@ -3,7 +3,7 @@
 use std::sync::Arc;
 use std::time::Instant;
 
-use crate::exec::{execute, ExecCtx};
+use crate::exec::{execute_checked as execute, ExecCtx};
 use crate::findings;
 use crate::trace::*;
 
